@@ -15,12 +15,20 @@ ASSUMPTIONS = ['when the referent lies outside the selected lexicons wn.Error is
 
 def gen(rng):
     W = multi.world(rng, '1.3')
-    ops = [multi.add_op(W, ['a:1', 'e:1', 'b:1', 'u:1'], '1.3'), multi.add_op(W, ['ax:1'], '1.3')]
+    ops = [multi.add_op(W, ['a:1', 'e:1', 'b:1', 'u:1'], '1.3')]
+    if rng.random() < 0.5:
+        # navigate first, extend afterwards: results must follow the database, not an earlier call
+        ops.append({'k': 'battery', 'expand': ''})
+        ops.append({'k': 'battery', 'lexicon': 'a:1', 'expand': ''})
+    ops.append(multi.add_op(W, ['ax:1'], '1.3'))
     if rng.random() < 0.4:
         ops.append(multi.add_op(W, ['a:2'], '1.3'))
     sels = [{}, {'lexicon': 'a:1 ax:1'}, {'lexicon': 'a:1'}, {'lexicon': 'ax:1'}, {'lang': 'en'}, {'lexicon': 'a:1 e:1 b:1 u:1'}, {'lexicon': 'a:*'}]
-    for s in rng.sample(sels, 4):
+    for s in [{}] + rng.sample(sels[1:], 3):
         ops.append(dict({'k': 'battery'}, **s, expand=''))
+    if rng.random() < 0.3:
+        ops.append({'k': 'remove', 'spec': 'ax:1', '_removed': ['ax:1']})
+        ops.append({'k': 'battery', 'expand': ''})
     return {'ops': ops}
 
 
